@@ -53,6 +53,10 @@ func familyFor(p *Property, e *LedgerEntry) string {
 		return "trav"
 	case "C12":
 		return "decode"
+	case "C05":
+		return "readint"
+	case "C13":
+		return "token"
 	}
 	return ""
 }
@@ -132,13 +136,17 @@ const replayHeader = `package rjson
 
 import (
 	"fmt"
+	"io"
 	"math"
+	"math/big"
 	"strings"
 	"testing"
 	"time"
 )
 
 var _ = math.MaxInt64
+var _ = io.EOF
+var _ = big.NewInt
 var _ = strings.Contains
 var _ = time.Now
 `
@@ -202,6 +210,10 @@ func concreteReplay(eng *Engine, p *Property, e *LedgerEntry, fp *FuncProof, bas
 	switch family {
 	case "decode":
 		add([]byte(`nul-019 "t`)...)
+	case "readint":
+		add([]byte(`-0189 .e`)...)
+	case "token":
+		add([]byte(" \t\n\x0c\x0bnulltruefas\"-1[{:,")...)
 	case "trav", "errid":
 		add([]byte(`[]{}",:1 `)...)
 	default:
